@@ -1,0 +1,284 @@
+//go:build verif
+
+// Add-only hooks for the verification harness in /verif (properties C17 and C19).
+// Thin synchronous wrappers around unexported types; no behaviour of the package is changed.
+package app
+
+import (
+	"context"
+	"log/slog"
+	"net/http"
+	"sort"
+
+	m "github.com/Eyevinn/dash-mpd/mpd"
+	"github.com/Eyevinn/mp4ff/bits"
+	"github.com/Eyevinn/mp4ff/mp4"
+)
+
+// ---------------------------------------------------------------- seqCounters
+
+type VerifCounters struct{ s *seqCounters }
+
+// VerifCountersState is the complete state: the backing array up to cap, len, _nrCounters, windowSize.
+type VerifCountersState struct {
+	SeqNrs     []uint32
+	Counts     []uint32
+	Len        int
+	NrCounters uint32
+	WindowSize uint32
+}
+
+func VerifNewCounters(windowSize uint32) *VerifCounters {
+	return &VerifCounters{newSeqCounters(windowSize)}
+}
+func (v *VerifCounters) Add(seqNr uint32)                 { v.s.add(seqNr) }
+func (v *VerifCounters) Drop(seqNr uint32)                { v.s.drop(seqNr) }
+func (v *VerifCounters) Resize(w uint32)                  { v.s.resize(w) }
+func (v *VerifCounters) MinFromMax(max uint32) uint32     { return v.s.minFromMax(max) }
+func (v *VerifCounters) FullRange(n uint32) (a, b uint32) { return v.s.fullRange(n) }
+func (v *VerifCounters) NewFullCounter(nrTracks, maxSeqNr uint32) uint32 {
+	return v.s.newFullCounter(nrTracks, maxSeqNr)
+}
+func (v *VerifCounters) State() VerifCountersState { return verifCountersState(v.s) }
+
+func verifCountersState(s *seqCounters) VerifCountersState {
+	full := s.counters[:cap(s.counters)]
+	st := VerifCountersState{Len: len(s.counters), NrCounters: s._nrCounters, WindowSize: s.windowSize}
+	for _, c := range full {
+		st.SeqNrs = append(st.SeqNrs, c.seqNr)
+		st.Counts = append(st.Counts, c.count)
+	}
+	return st
+}
+
+// ---------------------------------------------------------------- segDataBuffer
+
+type VerifItem struct {
+	Name      string
+	SeqNr     uint32
+	Dts       uint64
+	Dur       uint32
+	IsShifted bool
+	TotSize   uint32
+	NrSamples uint16
+}
+
+func (i VerifItem) rsd() recSegData {
+	return recSegData{name: i.Name, seqNr: i.SeqNr, dts: i.Dts, dur: i.Dur, isShifted: i.IsShifted,
+		totSize: i.TotSize, nrSamples: i.NrSamples}
+}
+
+func verifItem(r recSegData) VerifItem {
+	return VerifItem{Name: r.name, SeqNr: r.seqNr, Dts: r.dts, Dur: r.dur, IsShifted: r.isShifted,
+		TotSize: r.totSize, NrSamples: r.nrSamples}
+}
+
+type VerifBuffer struct{ b *segDataBuffer }
+
+// VerifBufferState: items up to cap, len, _nrItems, size.
+type VerifBufferState struct {
+	Items   []VerifItem
+	Len     int
+	NrItems uint32
+	Size    uint32
+}
+
+func VerifNewBuffer(size uint32) *VerifBuffer    { return &VerifBuffer{newSegDataBuffer(size)} }
+func (v *VerifBuffer) Add(i VerifItem) error     { return v.b.add(i.rsd()) }
+func (v *VerifBuffer) Resize(n uint32)           { v.b.resize(n) }
+func (v *VerifBuffer) DropSeqNr(n uint32)        { v.b.dropSeqNr(n) }
+func (v *VerifBuffer) RemoveUnshifted() []uint32 { return v.b.removeUnshifted() }
+func (v *VerifBuffer) State() VerifBufferState   { return verifBufferState(v.b) }
+func (v *VerifBuffer) GetItem(n uint32) (VerifItem, bool) {
+	r, ok := v.b.getItem(n)
+	return verifItem(r), ok
+}
+
+func verifBufferState(b *segDataBuffer) VerifBufferState {
+	st := VerifBufferState{Len: len(b.items), NrItems: b._nrItems, Size: b.size}
+	for _, it := range b.items[:cap(b.items)] {
+		st.Items = append(st.Items, verifItem(it))
+	}
+	return st
+}
+
+// ---------------------------------------------------------------- segmentTimelineGenerator
+
+type VerifGen struct {
+	g *segmentTimelineGenerator
+}
+
+type VerifGenState struct {
+	Counters    VerifCountersState
+	Buffers     map[string]VerifBufferState
+	LatestSeqNr uint32
+	WindowSize  uint32
+	NrTracks    uint32
+	Started     bool
+	Shifted     bool
+}
+
+func VerifNewGen(dstDir string, windowSize uint32) *VerifGen {
+	return &VerifGen{newSegmentTimelineGenerator(dstDir, windowSize)}
+}
+func (v *VerifGen) AddSegmentData(i VerifItem) (uint32, error) {
+	return v.g.addSegmentData(slog.Default(), i.rsd())
+}
+func (v *VerifGen) Start(newWindowSize uint32, isShifted bool) { v.g.start(newWindowSize, isShifted) }
+func (v *VerifGen) DropSeqNr(n uint32)                         { v.g.dropSeqNr(n) }
+func (v *VerifGen) Resize(n uint32)                            { v.g.resize(n) }
+func (v *VerifGen) State() VerifGenState                       { return verifGenState(v.g) }
+
+func verifGenState(g *segmentTimelineGenerator) VerifGenState {
+	st := VerifGenState{Counters: verifCountersState(g.counters), Buffers: map[string]VerifBufferState{},
+		LatestSeqNr: g.latestSeqNr, WindowSize: g.windowSize, NrTracks: g._nrTracks, Started: g._started, Shifted: g._shifted}
+	for name, b := range g.segDataBuffers {
+		st.Buffers[name] = verifBufferState(b)
+	}
+	return st
+}
+
+// Generate calls generateSegmentTimelineNrMPD with a channel that only has what that function reads:
+// dir (where manifest_timeline_nr.mpd is written) and an MPD with one period and one adaptation set
+// per entry of adaptationSets (list of representation ids, empty SegmentTemplate).
+func (v *VerifGen) Generate(newLatestSeqNr uint32, adaptationSets [][]string, dir string) error {
+	mpd := m.NewMPD("dynamic")
+	p := m.NewPeriod()
+	mpd.AppendPeriod(p)
+	for _, reps := range adaptationSets {
+		as := m.NewAdaptationSet()
+		as.SegmentTemplate = m.NewSegmentTemplate()
+		for _, id := range reps {
+			r := m.NewRepresentation()
+			r.Id = id
+			as.AppendRepresentation(r)
+		}
+		p.AppendAdaptationSet(as)
+	}
+	ch := &channel{dir: dir, mpd: mpd, masterTimescale: 1, masterSegDuration: 1}
+	return v.g.generateSegmentTimelineNrMPD(slog.Default(), newLatestSeqNr, ch, 0)
+}
+
+// ---------------------------------------------------------------- channel (receivedSegData, synchronous)
+
+type VerifChannel struct {
+	ch     *channel
+	cancel context.CancelFunc
+}
+
+type VerifChannelState struct {
+	Gen               VerifGenState
+	MasterTrName      string
+	MasterTimescale   uint32
+	MasterSegDuration uint32
+	MasterSeqNrShift  int64
+	MasterTimeShift   int64
+	MaxNrBufSegs      uint32
+	TrIDs             []string
+	Asets             [][]string // representation ids per adaptation set of ch.mpd
+}
+
+// VerifNewChannel creates a channel as ChannelMgr.AddChannel does (newChannel). Its goroutine only
+// waits on recSegCh; the harness calls ReceivedSegData synchronously instead of sending there.
+func VerifNewChannel(dir string, timeShiftBufferDepthS uint32, startNr int) *VerifChannel {
+	ctx, cancel := context.WithCancel(context.Background())
+	ch := newChannel(ctx, ChannelConfig{Name: "verif", TimeShiftBufferDepthS: timeShiftBufferDepthS, StartNr: startNr}, dir)
+	return &VerifChannel{ch, cancel}
+}
+func (v *VerifChannel) Close() { v.cancel() }
+
+// AddInit registers a track from the bytes of an init segment (what processInitSegment does after storing it).
+func (v *VerifChannel) AddInit(trName, ext, mediaType string, initData []byte) error {
+	f, err := mp4.DecodeFileSR(bits.NewFixedSliceReader(initData))
+	if err != nil {
+		return err
+	}
+	return v.ch.addInitDataAndUpdateTimescale(stream{chName: v.ch.name, trName: trName, ext: ext, mediaType: mediaType,
+		chDir: v.ch.dir, trDir: v.ch.dir + "/" + trName}, f.Init)
+}
+
+// ReceivedSegData is what the channel goroutine does for one message on recSegCh.
+func (v *VerifChannel) ReceivedSegData(i VerifItem, chunkNr uint32, isComplete bool) {
+	r := i.rsd()
+	r.chunkNr = chunkNr
+	r.isComplete = isComplete
+	v.ch.receivedSegData(r)
+}
+
+func (v *VerifChannel) State() VerifChannelState {
+	ch := v.ch
+	ids := append([]string{}, ch.trIDs...)
+	sort.Strings(ids)
+	var asets [][]string
+	for _, as := range ch.mpd.Periods[0].AdaptationSets {
+		var ids []string
+		for _, r := range as.Representations {
+			ids = append(ids, r.Id)
+		}
+		asets = append(asets, ids)
+	}
+	return VerifChannelState{Asets: asets, Gen: verifGenState(ch.segTimesGen), MasterTrName: ch.masterTrName, MasterTimescale: ch.masterTimescale,
+		MasterSegDuration: ch.masterSegDuration, MasterSeqNrShift: ch.masterSeqNrShift, MasterTimeShift: ch.masterTimeShift,
+		MaxNrBufSegs: ch.maxNrBufSegs, TrIDs: ids}
+}
+
+// ---------------------------------------------------------------- receiver behind its real router (L1, C19)
+
+type VerifReceiver struct {
+	R      *Receiver
+	Router http.Handler
+}
+
+// VerifNewReceiver builds the receiver and its router exactly as Run does (NewReceiver + setupRouter).
+func VerifNewReceiver(ctx context.Context, storage, prefix string, timeShiftBufferDepthS uint64, cfg *Config) (*VerifReceiver, error) {
+	if cfg == nil {
+		cfg = GetEmptyConfig()
+	}
+	opts := &Options{storage: storage, prefix: prefix, timeShiftBufferDepthS: timeShiftBufferDepthS}
+	r, err := NewReceiver(ctx, opts, cfg)
+	if err != nil {
+		return nil, err
+	}
+	return &VerifReceiver{R: r, Router: setupRouter(r, storage, "")}, nil
+}
+
+// Handler is the upload handler without the chi middleware (no Recoverer, no request logging).
+func (v *VerifReceiver) Handler() http.HandlerFunc { return v.R.SegmentHandlerFunc }
+
+// ChannelNames lists the channel table; TrackNames the registered tracks of one channel
+// (read under the locks the package itself uses for writing them).
+func (v *VerifReceiver) ChannelNames() []string {
+	cm := v.R.channelMgr
+	cm.mu.RLock()
+	defer cm.mu.RUnlock()
+	var out []string
+	for k := range cm.channels {
+		out = append(out, k)
+	}
+	sort.Strings(out)
+	return out
+}
+
+func (v *VerifReceiver) TrackNames(chName string) []string {
+	ch, ok := v.R.channelMgr.GetChannel(chName)
+	if !ok {
+		return nil
+	}
+	ch.mu.RLock()
+	defer ch.mu.RUnlock()
+	var out []string
+	for k := range ch.trDatas {
+		out = append(out, k)
+	}
+	sort.Strings(out)
+	return out
+}
+
+// ChannelState returns the channel-level numbers of one channel (call only when no upload is in flight).
+func (v *VerifReceiver) ChannelState(chName string) (VerifChannelState, bool) {
+	ch, ok := v.R.channelMgr.GetChannel(chName)
+	if !ok {
+		return VerifChannelState{}, false
+	}
+	return (&VerifChannel{ch: ch}).State(), true
+}
